@@ -14,13 +14,13 @@ pub fn prop() -> Prop {
 
 fn spec() -> Spec {
     Spec {
-        kinds: vec![Kind { name: "sampler", quick: 4_000, thorough: 200_000, serial: false }],
+        kinds: vec![Kind { name: "sampler", quick: 20_000, thorough: 500_000, serial: false }],
         rule: "each case = one constraint set with per-joint (from,to) in [-2pi,2pi] of classes from<to, from>to straddling zero, from>to both positive, from>to both negative, from==to, limits at +-2pi; 500 draws of random_angles() per set (cases run on 16 threads, the library RNG is thread-local); every draw is judged by the reference arc oracle and by the library's own compliant(); non-trivial = set contains at least one wrap-around joint; distinct = hash(from,to)",
         assumptions: vec![
             "draws within 1e-9 rad of an arc end are inconclusive",
             "from > to with from == to (mod 2pi) describes no arc of positive width and is not generated",
         ],
-        minimums: vec![("oracle_evals", 5_000_000, 50_000_000), ("wrap_both_positive_joints", 1_000, 10_000), ("wrap_both_negative_joints", 1_000, 10_000)],
+        minimums: vec![("oracle_evals", 40_000_000, 1_000_000_000), ("wrap_both_positive_joints", 8_000, 200_000), ("wrap_both_negative_joints", 8_000, 200_000)],
     }
 }
 
